@@ -36,9 +36,12 @@ package parsigdb
 //@ loop 1 invariant forall(j, 0, $i, cntRoot(sigs, rootOf(sigs[j]), j) < len(sigsByMsgRoot[rootOf(sigs[j])]) && sigsByMsgRoot[rootOf(sigs[j])][cntRoot(sigs, rootOf(sigs[j]), j)] == sigs[j])
 //@ loop 2 invariant true
 
+// same-share equality is equality of the full JSON encodings (every field of the value, not only what is signed)
+//@ pure json.Marshal bytes.Equal
 //@ func parSignedDataEqual
 //@ props C07
 //@ pure
+//@ ensures r1 == nil ==> res(1, json.Marshal(x)) == nil && res(1, json.Marshal(y)) == nil && r0 == bytes.Equal(res(0, json.Marshal(x)), res(0, json.Marshal(y)))
 
 //@ func (db *MemDB) evictExemptShareEntryUnsafe
 //@ props C07
